@@ -422,6 +422,37 @@ pub fn run_c12big(out: &mut Out, rng: &mut Rng, only: Option<&str>, all: bool) {
     }
 }
 
+/// C10 / C12 at the far end: hash_file on sparse regular files of MAX - 1, MAX and MAX + 1 bytes
+/// (a random head, then zeros): the size limit is inclusive whatever the metadata says.
+pub fn run_bigfile(out: &mut Out, rng: &mut Rng, only: Option<&str>, all: bool) {
+    const MAX: u64 = 4_224_281_216;
+    let dir = std::env::var("VREC_TMP").unwrap_or_else(|_| "/verif/work/tmp".to_string());
+    let _ = std::fs::create_dir_all(&dir);
+    for v in VARIANTS.iter() {
+        if only.map_or(false, |o| o != v.name()) || v.ck_len() != 1 {
+            continue;
+        }
+        let sizes: Vec<u64> = if all { vec![MAX - 1, MAX, MAX + 1] } else { vec![MAX] };
+        for size in sizes {
+            let head = rng.bytes(4096);
+            let path = std::path::PathBuf::from(format!("{}/big-{}-{}-{}.bin", dir, std::process::id(), v.name(), size));
+            {
+                use std::io::Write;
+                let mut f = std::fs::File::create(&path).expect("create temp file");
+                f.write_all(&head).expect("write temp file");
+                f.set_len(size).expect("extend temp file");
+            }
+            let o = v.hash_file(&path);
+            let _ = std::fs::remove_file(&path);
+            out.emit(
+                Ev::new("file_wide").str("v", v.name()).bytes("head", &head)
+                    .raw("size", &format!("[{},{}]", size >> 16, size & 0xffff))
+                    .raw("r", &outcome_json(&o)).meas(o.a, &o.p),
+            );
+        }
+    }
+}
+
 /// C17: readers that claim bytes they never wrote (within the buffer): the library then hashes
 /// what its buffer holds - zeros, or what earlier reads left there - never anything else.
 fn run_lies(out: &mut Out, rng: &mut Rng, v: &dyn Var) {
